@@ -4,6 +4,10 @@ proof   : coq/Props/Properties_C18.v (mps_error over an abstract vsnprintf with 
           early return of mps_mpsolve, mps_caller on a one-task pool)
 tie     : (i) mps_error call sites driven through the API (harness/c18_error.c) with argument texts of
           many lengths; message compared with the intended text and with the extracted model (bin/ctx error);
+          (i') harness/c18_sites.c: further call sites, one process per case.  The intended text of a message whose wording is
+          the source's business (missing degree; end-of-input messages that carry a number) is read off the snapshot source
+          (source_sites), falling back to the wordings known here; every literal format of an mps_error /
+          mps_raise_parsing_error call is scanned for conversions without arguments;
           (ii) results snapshot before/after a solve with the flag set (harness/c15_reuse.c);
           (iii) mps_mpsolve_async with a callback counter and abort injection under real threads
           (harness/c18_async.c).
@@ -106,11 +110,12 @@ def sticky_cases(ctx, h, info):
     for algo, poly in STICKY:
         for solve2 in ("solve", "solve_async"):
             script = ["new", "algo " + algo, "goal i", poly, "solve", "bad x^", "goal a", "prec 300", solve2, "get_roots", "free"]
-            rc, out, err = vf.sh([h], input="\n".join(script) + "\n", timeout=120, env=san_env(ctx))
+            # (a solve on a context with errors does nothing: milliseconds; 45 s only bound a run whose callback never comes)
+            rc, out, err = vf.sh([h], input="\n".join(script) + "\n", timeout=45, env=san_env(ctx))
             info["sticky_cases"] += 1
             replay = {"kind": "sticky", "script": script}
             if rc != 0:
-                ctx.violation("sticky:crash", "solve with the error flag set ends abnormally rc=%d" % rc, replay); continue
+                ctx.violation("sticky:crash", "solve with the error flag set ends abnormally rc=%d%s" % (rc, " (no end within 45 s: with %s the completion is never signalled)" % solve2 if rc == 124 else ""), replay); continue
             blocks, cur, st = {}, None, {}
             for l in out.splitlines():
                 w = l.split()
@@ -206,10 +211,158 @@ SIG_NULLTOK = "error-message:missing-argument:parser.c:raise-null-token"
 MSG_COEF = "Error parsing coefficients of the polynomial"
 
 
-def site_cases_list(ctx):
+DEGREE_WORDINGS = ["Degree of the polynomial must be provided via the Degree=%d configuration option.",      # literal of a `Degree=%%d` format
+                   "Degree of the polynomial must be provided via the Degree=<n> configuration option."]     # wording since fb161c73
+DEGREE_ANCHOR = "Degree of the polynomial must be provided"
+NULLTOK_ANCHOR = "Error while reading"
+
+# --- reading intended texts off the snapshot source -----------------------------------------------------------
+_C_TOKEN = re.compile(r'/\*.*?\*/|//[^\n]*|"(?:\\.|[^"\\\n])*"|\'(?:\\.|[^\'\\\n])*\'', re.S)
+_C_ESC = {"n": "\n", "t": "\t", "r": "\r", "0": "\0", "a": "\a", "b": "\b", "f": "\f", "v": "\v", "\\": "\\", '"': '"', "'": "'", "?": "?"}
+_CONV = re.compile(r"%(?:(?P<pct>%)|(?P<flags>[-+ #0]*)(?P<width>\d+)?(?P<prec>\.\d+)?(?P<len>hh|h|ll|l|j|z|t|L)?(?P<conv>[diouxXeEfFgGaAcspn]))")
+
+
+def c_unescape(body):
+    def rep(m):
+        e = m.group(1)
+        if e[0] in "xX": return chr(int(e[1:], 16) & 255)
+        if e[0] in "01234567": return chr(int(e, 8) & 255)
+        return _C_ESC.get(e, e)
+    return re.sub(r"\\(x[0-9a-fA-F]+|[0-7]{1,3}|.)", rep, body, flags=re.S)
+
+
+def c_blank_comments(text):
+    """The source with comments blanked (string and character literals untouched), same length and line structure."""
+    def rep(m):
+        t = m.group(0)
+        return t if t[0] in "\"'" else re.sub(r"[^\n]", " ", t)
+    return _C_TOKEN.sub(rep, text)
+
+
+def c_literal_value(expr):
+    """Value of an expression that consists of adjacent string literals only, else None."""
+    parts = []; pos = 0
+    for m in re.finditer(r'"((?:\\.|[^"\\\n])*)"', expr):
+        if expr[pos:m.start()].strip(): return None
+        parts.append(c_unescape(m.group(1))); pos = m.end()
+    if not parts or expr[pos:].strip(): return None
+    return "".join(parts)
+
+
+def c_calls(text, fname):
+    """[(line, [argument texts])] for every call `fname (...)` in a C source text (comments ignored, literals respected)."""
+    src = c_blank_comments(text); out = []
+    for m in re.finditer(r"(?<![A-Za-z0-9_])%s\s*\(" % re.escape(fname), src):
+        i = m.end(); depth = 1; args = []; cur = []
+        while i < len(src) and depth:
+            ch = src[i]
+            if ch in "\"'":
+                t = _C_TOKEN.match(src, i)
+                if not t: break
+                cur.append(t.group(0)); i = t.end(); continue
+            if ch in "([{": depth += 1
+            elif ch in ")]}":
+                depth -= 1
+                if depth == 0: break
+            if ch == "," and depth == 1: args.append("".join(cur).strip()); cur = []
+            else: cur.append(ch)
+            i += 1
+        if depth: continue                      # unbalanced: not a call we can read
+        args.append("".join(cur).strip())
+        out.append((src.count("\n", 0, m.start()) + 1, args))
+    return out
+
+
+def conversions(fmt):
+    """The conversions of a printf format that consume an argument (`%%` does not; `*` widths are not used by libmps' messages)."""
+    return [m for m in _CONV.finditer(fmt) if not m.group("pct")]
+
+
+def render(fmt, args):
+    """printf rendering of a format with python values for the d/i/u/s/c/x conversions libmps' messages use; None if the format
+    has another conversion or the number of arguments is not the number of conversions."""
+    it = iter(args)
+    def rep(m):
+        if m.group("pct"): return "%"
+        conv = m.group("conv")
+        if conv not in "diuscxX": raise ValueError(conv)
+        v = next(it)
+        return ("%" + m.group("flags") + (m.group("width") or "") + (m.group("prec") or "") + {"i": "d", "u": "d"}.get(conv, conv)) % (v,)
+    try:
+        s = _CONV.sub(rep, fmt)
+    except (StopIteration, ValueError, TypeError):
+        return None
+    return s if next(it, None) is None else None
+
+
+def read_snapshot(snap, rel):
+    try: return open(os.path.join(snap, rel), errors="replace").read()
+    except OSError: return None
+
+
+ERROR_FUNCS = {"mps_error": 1, "mps_raise_parsing_error": 3}       # function -> index of the format among its arguments
+
+
+def source_sites(snap):
+    """What the snapshot source says about the messages whose wording this check does not fix itself:
+       degree : literal text of the missing-degree message if its format has no argument-consuming conversion, else None
+       nulltok: {format literal -> [argument expressions]} of the mps_raise_parsing_error calls of chebyshev-parser.c with arguments
+       scan   : every mps_error / mps_raise_parsing_error call of libmps whose format is a literal: conversions vs arguments."""
+    info = {"degree": None, "degree_format": None, "nulltok": {}, "scan": {"calls": 0, "literal_formats": 0, "with_arguments": 0, "files": 0}, "mismatch": [], "literals": set()}
+    root = os.path.join(snap, "src", "libmps")
+    for d, _, files in sorted(os.walk(root)):
+        for f in sorted(files):
+            if not f.endswith((".c", ".y", ".l")): continue
+            rel = os.path.relpath(os.path.join(d, f), snap); text = read_snapshot(snap, rel)
+            if text is None or not any(fn in text for fn in ERROR_FUNCS): continue
+            info["scan"]["files"] += 1
+            # the missing-degree message is the one reported under `if (s->n == -1)` of parser.c, whatever its wording
+            degree_lines = set()
+            if f == "parser.c":
+                blank = c_blank_comments(text)
+                for m in re.finditer(r"if\s*\(\s*s\s*->\s*n\s*==\s*-\s*1\s*\)", blank):
+                    l0 = blank.count("\n", 0, m.start()) + 1; degree_lines |= set(range(l0, l0 + 8))
+            for fn, idx in ERROR_FUNCS.items():
+                for line, args in c_calls(text, fn):
+                    if len(args) <= idx or re.match(r"(const\s+)?(mps_context|char)\b", args[0]): continue     # prototype / definition
+                    info["scan"]["calls"] += 1
+                    fmt = c_literal_value(args[idx])
+                    if fmt is None: continue
+                    info["scan"]["literal_formats"] += 1
+                    nconv = len(conversions(fmt)); extra = args[idx + 1:]
+                    info["scan"]["with_arguments"] += bool(extra)
+                    info["literals"].add(render(fmt, ()) if nconv == 0 else fmt)
+                    if nconv != len(extra):
+                        info["mismatch"].append({"file": rel, "line": line, "function": fn, "format": fmt, "conversions": nconv, "arguments": len(extra)})
+                    if f == "parser.c" and fn == "mps_error" and (fmt.startswith(DEGREE_ANCHOR) or line in degree_lines):
+                        info["degree_format"] = fmt
+                        if nconv == 0 and not extra: info["degree"] = render(fmt, ())
+                    if f == "chebyshev-parser.c" and fn == "mps_raise_parsing_error" and extra:
+                        info["nulltok"][fmt] = extra
+    return info
+
+
+def nulltok_intended(src, default_fmt, values):
+    """Intended text of an end-of-input message of the sparse Chebyshev reader: the format as the source has it (the one that starts
+    like `default_fmt` up to its conversion), rendered with the values of the caller's argument expressions."""
+    stem = default_fmt.split("%")[0].rstrip()
+    def usable(fmt, exprs): return all(e in values for e in exprs) and render(fmt, [values[e] for e in exprs]) is not None
+    cands = [(f, x) for f, x in sorted(src["nulltok"].items()) if f.split("%")[0].rstrip() == stem and usable(f, x)]
+    if not cands:       # reworded in the source: the call of the same part (real / imaginary) that passes the same variable
+        cands = [(f, x) for f, x in sorted(src["nulltok"].items()) if ("imaginary" in f) == ("imaginary" in default_fmt) and x == [values["default_expr"]] and usable(f, x)]
+    if len(cands) == 1:
+        fmt, exprs = cands[0]
+        return fmt, render(fmt, [values[e] for e in exprs])
+    return default_fmt, render(default_fmt, [values[values["default_expr"]]])
+
+
+def site_cases_list(ctx, src=None):
     """[{site, argv, pieces, args, contains?, sig?}]: pieces/args describe the caller's format and arguments (the intended text is
-    their rendering); `contains` = text the caller passed to mps_raise_parsing_error, which must be retrievable too."""
+    their rendering); `contains` = text the caller passed to mps_raise_parsing_error, which must be retrievable too.
+    `src` = source_sites(snapshot): where the wording is the source's business (missing degree, messages with a number) the
+    intended text is read off the snapshot; without it the wordings known to this file are used."""
     rng = ctx.rng; out = []
+    src = src or {"degree": None, "nulltok": {}}
     def lit(s): return [("L", s)]
     def case(site, argv, pieces, args=(), **kw):
         d = {"site": site, "argv": argv, "pieces": pieces, "args": [str(a) for a in args]}; d.update(kw); out.append(d)
@@ -227,9 +380,12 @@ def site_cases_list(ctx):
         case("parser.c:degree-not-positive", ["str", hx("Monomial;\nDegree=%d;\nInteger;\n\n1 1\n" % v)], lit("Degree must be a positive integer"))
     case("parser.c:precision-not-positive", ["str", hx("Monomial;\nDegree=1;\nPrecision=%d;\nFloatingPoint;\n\n1 1\n" % -rng.randint(0, 999))],
          lit("Precision must be a positive integer"))
-    for kind in ("Integer", "Rational"):
+    # the message names the option's syntax: its wording is the source's (read off the snapshot when its format needs no argument),
+    # otherwise exactly one of the two wordings the message has had; a number in place of the syntax is the violation
+    for kind in ("Integer", "Rational", "FloatingPoint"):
         case("parser.c:degree-missing", ["str", hx("Monomial;\n%s;\nReal;\n\n1 1\n" % kind)],
-             lit("Degree of the polynomial must be provided via the Degree=%d configuration option."), sig=SIG_DEGREE)
+             lit(src["degree"] or DEGREE_WORDINGS[-1]), sig=SIG_DEGREE, accept=[src["degree"]] if src["degree"] else list(DEGREE_WORDINGS),
+             derived=bool(src["degree"]))
     # coefficients: end of input (token == NULL: the caller's message alone) and malformed token (message + position)
     for kind, cplx, good, bad in (("Integer", "Real", "12", "1x2"), ("Integer", "Complex", "7", "7%d"), ("Rational", "Real", "1/3", "q/2"),
                                   ("Rational", "Complex", "2/5", "1/z%s"), ("FloatingPoint", "Real", "1.5", "1.5.5e"), ("FloatingPoint", "Complex", "2.5e3", "%n%n")):
@@ -245,15 +401,38 @@ def site_cases_list(ctx):
         if kind == "Rational": want = "Error parsing the %s of a coefficient" % ("denominator" if "/z" in tok else "numerator")
         case("monomial-parser.c:coefficients-token:%s-%s" % (kind, cplx), ["str", hx(text)],
              [("L", "Parsing error on line "), ("A",), ("L", " near the token: " + tok)], [line], contains=want, sig=SIG_DROPS)
-    # Chebyshev
-    case("chebyshev-parser.c:dense-eof", ["str", hx("Chebyshev;\nDegree=3;\nRational;\nReal;\n\n1/2 1/3\n")], lit("Error while reading the real part of coefficient"))
-    case("chebyshev-parser.c:dense-fp-eof", ["str", hx("Chebyshev;\nDegree=3;\nFloatingPoint;\nReal;\n\n1.5 2.5\n")], lit("Error while reading real part of coefficient"))
-    for _ in range(3):
-        d = rng.randint(2, 9); i = rng.randint(1, d)
-        body = "".join("%d 1/%d\n" % (j, j + 2) for j in range(i)) + "%d\n" % i
-        case("chebyshev-parser.c:sparse-eof", ["str", hx("Chebyshev;\nDegree=%d;\nRational;\nReal;\nSparse;\n\n%s" % (d, body))],
-             [("L", "Error while reading the real part of coefficient "), ("A",)], [d + 1], sig=SIG_NULLTOK)
-        # (the argument the caller passes is its variable i, which is n + 1 after the zeroing loop, not the degree just read)
+    # Chebyshev: every end-of-input exit of the reader (token == NULL: the caller's message, rendered with the caller's arguments, and nothing else)
+    cheb = "Chebyshev;\nDegree=%d;\n%s;\n%s;\n%s\n%s"
+    for kind, cplx, good, m_re, m_im in (("Rational", "Real", "1/2", "Error while reading the real part of coefficient", None),
+                                         ("Rational", "Complex", "2/3", "Error while reading the real part of coefficient", "Error while reading the imaginary part of coefficient"),
+                                         ("Integer", "Complex", "5", "Error while reading the real part of coefficient", "Error while reading the imaginary part of coefficient"),
+                                         ("FloatingPoint", "Real", "1.5", "Error while reading real part of coefficient", None),
+                                         ("FloatingPoint", "Complex", "2.5e1", "Error while reading real part of coefficient", "Error while reading imaginary part of coefficient")):
+        d = rng.randint(2, 7); per = 2 if cplx == "Complex" else 1
+        for part, msg in (("re", m_re), ("im", m_im)):
+            if msg is None: continue
+            have = rng.randrange(0, d + 1) * per + (1 if part == "im" else 0)
+            case("chebyshev-parser.c:dense-eof:%s-%s-%s" % (kind, cplx, part), ["str", hx(cheb % (d, kind, cplx, "", " ".join([good] * have) + "\n"))], lit(msg))
+    # sparse: three of the callers pass a number with the message.  The argument is the caller's variable: `i` (n + 1 after the zeroing
+    # loop, not the degree just read) in the exact branch, `degree` (the degree just read) in the floating point one
+    for kind, cplx, good, part, fmt, dflt in (("Rational", "Real", "1/%d", "re", "Error while reading the real part of coefficient %d", "i"),
+                                              ("Rational", "Real", "1/%d", "re", "Error while reading the real part of coefficient %d", "i"),
+                                              ("Integer", "Real", "%d", "re", "Error while reading the real part of coefficient %d", "i"),
+                                              ("Rational", "Complex", "3/%d", "im", "Error while reading the imaginary part of coefficient %d", "i"),
+                                              ("FloatingPoint", "Complex", "%d.25", "im", "Error while reading imaginary part of coefficient %d", "degree"),
+                                              ("FloatingPoint", "Complex", "%de-2", "im", "Error while reading imaginary part of coefficient %d", "degree")):
+        d = rng.randint(2, 9); i = rng.randint(1, d); per = 2 if cplx == "Complex" else 1
+        body = "".join("%d %s\n" % (j, " ".join([good % (j + 2)] * per)) for j in range(i)) + "%d%s\n" % (i, (" " + good % (i + 2)) if part == "im" else "")
+        values = {"i": d + 1, "degree": i, "default_expr": dflt}
+        sfmt, intended = nulltok_intended(src, fmt, values)
+        k = sfmt.index("%"); tail = _CONV.match(sfmt, k).end()
+        n = intended[k:len(intended) - (len(sfmt) - tail)]
+        case("chebyshev-parser.c:sparse-eof:%s-%s-%s" % (kind, cplx, part), ["str", hx(cheb % (d, kind, cplx, "Sparse;\n", body))],
+             [("L", sfmt[:k]), ("A",)] + ([("L", sfmt[tail:])] if sfmt[tail:] else []), [n], sig=SIG_NULLTOK, derived=sfmt in src["nulltok"])
+    for kind, good in (("FloatingPoint", "1.5"),):
+        d = rng.randint(2, 6); i = rng.randint(0, d)
+        case("chebyshev-parser.c:sparse-eof:%s-Real-re" % kind, ["str", hx(cheb % (d, kind, "Real", "Sparse;\n", "".join("%d %s\n" % (j, good) for j in range(i)) + "%d\n" % i))],
+             lit("Error while reading real part of coefficient"))
     case("chebyshev-parser.c:sparse-degree-token", ["str", hx("Chebyshev;\nDegree=3;\nRational;\nReal;\nSparse;\n\n0 1/2\nzz 1/3\n")],
          [("L", "Parsing error on line "), ("A",), ("L", " near the token: zz")], [8], contains="Cannot parse the degree of the coefficient.", sig=SIG_DROPS)
     # legacy (2.x) files
@@ -289,9 +468,33 @@ def site_cases_list(ctx):
     return out
 
 
+def judge_site_message(msg, intended, accept=None, contains=None):
+    """The predicate of a driven call site on the retrievable text: '' if it holds, else what is wrong."""
+    if msg is None: return "no message is retrievable"
+    if contains is not None:
+        return "" if contains in msg else "retrievable %r does not contain %r" % (msg[:90], contains)
+    if msg == intended or msg in (accept or ()): return ""
+    why = "retrievable message %r is not the intended text %r" % (msg[:100], intended[:100])
+    if accept and len(accept) > 1: why += " (nor %s)" % ", ".join(repr(a[:100]) for a in accept if a != intended)
+    if conversions(msg) and not conversions(intended): why += ": a conversion of the caller's format is shown unsubstituted"
+    return why
+
+
 def site_phase(ctx, h, info):
-    cases = site_cases_list(ctx)
+    snap = ctx.snap("san")
+    src = source_sites(snap)
+    cases = site_cases_list(ctx, src)
     st = info["sites"]
+    st["source_scan"] = dict(src["scan"], mismatches=len(src["mismatch"]), degree_message_from_source=src["degree"],
+                             messages_with_number_from_source=sorted(src["nulltok"]))
+    # static part of the argument clause: a literal format of an error call with more (or fewer) conversions than arguments
+    for mm_ in src["mismatch"]:
+        slug = re.sub(r"[^A-Za-z0-9=%<>]+", "-", mm_["format"])[:40].strip("-")
+        ctx.violation("error-message:format-arguments:%s:%s" % (os.path.basename(mm_["file"]), slug),
+                      "%s (%s:%d) is called with the format %r (%d conversions) and %d arguments for it: what the message shows in their place is indeterminate"
+                      % (mm_["function"], mm_["file"], mm_["line"], mm_["format"][:100], mm_["conversions"], mm_["arguments"]), dict(mm_, kind="site-static"), no_input=True)
+    if src["scan"]["literal_formats"] < 20:
+        raise vf.InfraError("C18: only %d literal formats of mps_error calls found under %s/src/libmps: the source scan no longer reads the code" % (src["scan"]["literal_formats"], snap))
     def run1(c):
         rc, out, err = vf.sh([h] + c["argv"], timeout=120, env=san_env(ctx))
         return rc, out, err
@@ -302,10 +505,12 @@ def site_phase(ctx, h, info):
     for c in cases:
         lines.append("\t".join([("L" + p[1]) if p[0] == "L" else "A" for p in c["pieces"]] + ["|"] + c["args"] + ["|", "JUNK"]))
     mo = ctx.run_model("ctx", "\n".join(lines) + "\n", args=["error", "fixed"]).split("\n")
+    if len(mo) < len(cases): raise vf.InfraError("bin/ctx error returned %d lines for %d call-site cases" % (len(mo), len(cases)))
     for c, (rc, out, err), ml in zip(cases, results, mo):
         it = iter(c["args"]); intended = "".join(p[1] if p[0] == "L" else next(it) for p in c["pieces"])
         mm = re.match(r"flag=(\d) msg=(.*)\tintended=(.*)$", ml)
         replay = {"kind": "site", "site": c["site"], "argv": c["argv"], "intended": intended, "contains": c.get("contains")}
+        if c.get("accept"): replay["accept"] = c["accept"]
         st["cases"] += 1; st["by_site"][c["site"].split(":")[0]] += 1; st["distinct_sites"].add(c["site"])
         if not mm or mm.group(2) != intended or mm.group(3) != intended:
             ctx.violation("correspondence:mps_error-model:%s" % c["site"], "extracted model renders %r, python %r" % (ml[:120], intended[:120]), replay, no_input=True)
@@ -325,10 +530,15 @@ def site_phase(ctx, h, info):
                 ctx.violation(c["sig"], "mps_raise_parsing_error (parser.c) drops the message of its caller: retrievable %r does not contain %r (site %s)"
                               % (msg[:90], c["contains"], c["site"]), replay)
             continue
-        if msg == intended: st["faithful"] += 1; continue
+        why = judge_site_message(msg, intended, c.get("accept"))
+        st["intended_from_source"] += bool(c.get("derived"))
+        if not why: st["faithful"] += 1; continue
+        if not c["args"] and "accept" not in c and intended not in src["literals"] and msg in src["literals"] and not conversions(msg):
+            # the source no longer has the wording this file expects and the retrievable text is, verbatim, a message of the source:
+            # reported faithfully under a new wording
+            st["faithful"] += 1; st["reworded"] += 1; ctx.notes.append("site %s: message reworded in the source: %r" % (c["site"], msg[:100])); continue
         st["unfaithful"] += 1
-        ctx.violation(c.get("sig") or "error-message:wrong:%s" % c["site"], "retrievable message %r is not the intended text %r (site %s)" % (msg[:100], intended[:100], c["site"]), replay)
-
+        ctx.violation(c.get("sig") or "error-message:wrong:%s" % c["site"], "%s (site %s)" % (why, c["site"]), replay)
 
 
 # ---------------------------------------------------------------------------------------------------------------
@@ -528,7 +738,10 @@ def sched_phase(ctx, info):
             raise vf.InfraError("c18_sched baseline failed rc=%s on %s %s: %s" % (rc, j["case"]["name"], j["opts"], err[-1500:]))
         total = next((a for t, tag, a in base[0]["ev"] if tag == "sp_total"), None)
         runs.append((base[0], "default", 0, err))
-        if total is None: return j, runs, None
+        if total is None:
+            if int(base[0]["kv"].get("status", "0")) == 0:       # a run that ended normally always reports its number of scheduling points
+                raise vf.InfraError("c18_sched baseline on %s %s reports no scheduling points: %s" % (j["case"]["name"], j["opts"], err[-800:]))
+            return j, runs, None                                  # abnormal end: judged (and reported) below from the run's status
         stride = j["stride"] or 1
         off = ctx.seed % stride
         pts = list(range(off, total + 1, stride))
@@ -667,12 +880,15 @@ def sched_phase(ctx, info):
         orc = grp[0]["oracle"]; cache = {}
         for rec in grp:
             discs = S.discs_of(rec["res"]); zr = rec["res"].meta.get("zero_roots", 0)
-            if any(d[2] is None for d in discs): st["non_finite_radius"] += 1; continue
+            if any(d[2] is None for d in discs):
+                st["non_finite_radius"] += 1
+                ctx.violation("abort:non-finite-radius:%s" % rec["tag"], "solve (abort at point %s) returned without error a disc with a non finite radius" % rec["rep"]["abort_at"], rec["rep"])
+                continue
             key = tuple(discs)
             if key not in cache:
                 try: cache[key] = e2e.judge_discs(orc, discs + ([(Fr(0), Fr(0), Fr(0))] if zr else []))
                 except Exception as e_: cache[key] = None
-            if cache[key] is None: st["oracle_error"] += 1; continue
+            if cache[key] is None: st["oracle_error"] += 1; ctx.notes.append("oracle could not judge the result set of %s (abort at %s)" % (rec["tag"], rec["rep"]["abort_at"])); continue
             bounds, covered, uncovered = cache[key]
             st["result_sets_judged"] += 1; st["distinct_result_sets"] = st.get("distinct_result_sets", 0)
             for i, (lo, hi) in enumerate(bounds[:len(discs)]):
@@ -688,6 +904,11 @@ def sched_phase(ctx, info):
     for grp in groups:
         try: grp[0]["oracle"].close()
         except Exception: pass
+    if not ctx.replay and recs and not st["result_sets_judged"]:
+        raise vf.InfraError("C18: %d result sets were returned without the error flag and the oracle judged none of them" % len(recs))
+    if not ctx.replay and (not st["runs"] or not st["aborted_runs"] or (model_in and st["model_replayed"] != len(model_in))):
+        raise vf.InfraError("C18: scheduler phase incomplete: %d runs, %d with an abort request, %d of %d secular runs replayed through the model"
+                            % (st["runs"], st["aborted_runs"], st["model_replayed"], len(model_in)))
 
 
 
@@ -728,12 +949,18 @@ def run(ctx):
             rc, out, err = vf.sh([hsites] + obj["argv"], timeout=120, env=san_env(ctx))
             m = re.search(r"msg=([0-9a-f]+)", out or "")
             got = bytes.fromhex(m.group(1)).decode("latin1") if m else None
-            bad = rc != 0 or (obj["contains"] not in (got or "") if obj.get("contains") else got != obj["intended"])
-            if bad:
-                ctx.violation(obj.get("signature", "error-message:replay"), "replay: message %r, intended %r%s, rc=%d"
-                              % (got, obj["intended"], (" containing %r" % obj["contains"]) if obj.get("contains") else "", rc), obj)
-        else:
+            why = judge_site_message(got, obj["intended"], obj.get("accept"), obj.get("contains"))
+            if rc != 0 or why:
+                ctx.violation(obj.get("signature", "error-message:replay"), "replay: %s, rc=%d" % (why or "abnormal end", rc), obj)
+        elif k == "site-static":
+            for mm_ in source_sites(ctx.snap("san"))["mismatch"]:
+                if mm_["format"] == obj.get("format"):
+                    ctx.violation(obj.get("signature", "error-message:replay"), "replay: %s (%s:%d): format %r has %d conversions and %d arguments"
+                                  % (mm_["function"], mm_["file"], mm_["line"], mm_["format"][:100], mm_["conversions"], mm_["arguments"]), obj, no_input=True)
+        elif k == "async":
             async_cases(ctx, ha, info)
+        else:
+            raise vf.InfraError("C18: replay file of unknown kind %r" % (k,))
         return ctx.finish("proof", {"evaluations": 1, "distinct_nontrivial": 1, "rule": "replay", "samples": [str(obj)[:200]],
                                     "kind_histogram": {str(k): 1}, "trusted_base": ["replay"]}, [])
     base = [22, 27, 30, 31, 32, 33, 34, 40, 63, 64, 65, 100, 128, 200, 300]
@@ -744,6 +971,9 @@ def run(ctx):
     async_cases(ctx, ha, info)
     sched_phase(ctx, info)
     ctx.proof_violation_if_broken(search=None)
+    for what, n in (("mps_error length cases", info["error_cases"]), ("call-site cases", info["sites"]["cases"]), ("sticky-flag cases", info["sticky_cases"]),
+                    ("asynchronous runs", info["async_runs"])):
+        if not n: raise vf.InfraError("C18: no %s were run: the check would pass without having looked" % what)
     sc = json.loads(json.dumps(info["sched"]))
     si = dict(info["sites"]); si["distinct_sites"] = sorted(si["distinct_sites"]); si["by_site"] = dict(si["by_site"])
     cov = {
@@ -762,6 +992,7 @@ def run(ctx):
             "Coq 8.16.1 kernel; theorems closed under the global context",
             "extraction: ExtrOcamlBasic + ExtrOcamlNativeString only; ocaml/ctx_driver.ml",
             "vsnprintf and the x86-64 SysV va_list are modelled (abstract renderer + cursor), not verified",
+            "checks/C18.py source_sites: a small reader of C call sites, string literals and printf conversions applied to the snapshot (intended wording of the missing-degree message and of the messages with a number; conversions vs arguments of every literal error format)",
             "extraction of coq/Ctx/AbortModel.v (bin/abort) and ocaml/abort_driver.ml: depth-first search for the unobserved driver steps and oracle values of a model run that reproduces the observed program points",
             "scheduler shim harness/vf_sched.c (C06's), hooked build harness/c18_hooks.h (every access to exit_required calls the harness), link-time wrappers in harness/c18_sched.c",
             "abort model: numerics are oracle values; regeneration, Aberth packets, cleanup, job_queue_next and the locked region of a worker are atomic; pool = assign/wait abstraction (C06)",
